@@ -27,7 +27,7 @@ RULE = ("sampler {importance, minipcn, emcee, smc, emcee_smc, blackjax_smc} x pr
         "top-level sample_posterior(rng=), flow seed/key only} x seeds {0,1,VERIF_SEED}; each configuration is executed twice "
         "from scratch with numpy/python/torch global generators re-seeded differently and numpy.random.default_rng / the default "
         "orng.ArrayRNG patched to return differently seeded generators in the two runs (and logging their callers); a subset is "
-        "repeated in a fresh interpreter with a different PYTHONHASHSEED. non-trivial = run that consumes random numbers after the "
+        "repeated in a fresh interpreter with a different PYTHONHASHSEED; plus pairs of runs that are handed the very same argument objects (a reused sampler_kwargs dictionary). non-trivial = run that consumes random numbers after the "
         "initial draw (everything except pure importance sampling with an analytic proposal)")
 ASSUMPTIONS = [
     "stub kernels draw only from the generator object they are handed (minipcn) / from their own RandomState (emcee, like the real package)",
@@ -221,6 +221,57 @@ def run_config(cfg):
     return r.dump()
 
 
+def run_reused_arguments(cfg):
+    """Two runs that receive the very same argument objects (the user's sampler_kwargs dictionary is reused) with
+    the same seeds must be identical, and the kernel package must be configured identically both times."""
+    import _kernel
+    import orng
+    from aspire import Aspire
+    from env.flows import AnalyticFlow
+    from env.targets import Monitor
+
+    sampler, seed = cfg["sampler"], cfg["seed"]
+    r = Report()
+    case = {"reused_arguments": True, "cfg": cfg}
+    r.case(explorer.digest(case), nontrivial=True)
+    p = rh.problem("none")
+    user_kwargs = dict(cfg["sampler_kwargs"])
+    snapshot = dict(user_kwargs)
+    outs = []
+    for rep in range(2):
+        _kernel.reset(mode="prw" if sampler == "smc" else "det", scale=0.5, horizon=500)
+        orng.CONFIG["factory"] = None
+        orng.CONFIG["seed"] = seed
+        mon = Monitor(p["like"], p["prior"], "numpy", keep_points=False)
+        flow = AnalyticFlow(2, seed=seed + 1000, **p["flow"])
+        a = Aspire(log_likelihood=mon.log_likelihood, log_prior=mon.log_prior, dims=2, parameters=p["parameters"],
+                   prior_bounds=p["bounds"], flow=flow, xp=get_xp("numpy"))
+        try:
+            smp = a.init_sampler(sampler, preconditioning="none")
+            a._sampler = smp
+            if sampler == "emcee_smc":
+                smp.rng = np.random.default_rng(seed)
+            res = smp.sample(8, adaptive=True, target_efficiency=0.8, n_final_samples=12, sampler_kwargs=user_kwargs)
+        except Exception as e:
+            from env import exc_site
+
+            r.violation(f"C20/{sampler}/reused-arguments/run-{rep + 1}-raises/{type(e).__name__}/{exc_site(e)}", repr(e)[:200], case)
+            return r.dump()
+        built = [c for c in _kernel.CONFIG.get("constructed", [])]
+        outs.append((digest_arrays([res.x, res.log_likelihood, res.log_evidence] + list(smp.history.beta)), mon.n_calls,
+                     built[-1] if built else None))
+    if outs[0][0] != outs[1][0]:
+        r.violation(f"C20/{sampler}/not-reproducible/reused-sampler_kwargs-dict",
+                    {"user_calls": [outs[0][1], outs[1][1]], "kernel_configured": [repr(outs[0][2]), repr(outs[1][2])],
+                     "dict_before": repr(snapshot), "dict_after": repr(user_kwargs)}, case)
+    r.sample(case)
+    return r.dump()
+
+
+def dispatch(job):
+    return globals()[job[0]](job[1])
+
+
 def configs(tier, seed):
     out = []
     seeds = sorted({0, 1, seed})
@@ -247,7 +298,13 @@ def run(tier, seed, workers):
     rep = Report()
     cfgs = configs(tier, seed)
     cfgs.sort(key=lambda c: 0 if c["flow"] == "flowjax" or c["sampler"] == "blackjax_smc" else 1 if c["second_interpreter"] else 2)
-    for d in pmap("checks.c20", "run_config", cfgs, workers):
+    jobs = [("run_config", c) for c in cfgs]
+    for sd in sorted({0, seed}):
+        jobs.append(("run_reused_arguments", {"sampler": "smc", "seed": sd, "sampler_kwargs": {"n_steps": 2, "n_final_steps": 5}}))
+        jobs.append(("run_reused_arguments", {"sampler": "smc", "seed": sd, "sampler_kwargs": {"n_steps": 2}}))
+        jobs.append(("run_reused_arguments", {"sampler": "emcee_smc", "seed": sd,
+                                              "sampler_kwargs": {"nsteps": 2, "progress": False, "moves": "user-moves", "n_final_steps": 4}}))
+    for d in pmap("checks.c20", "dispatch", jobs, workers):
         rep.merge(d)
     rep.count("configs", len(cfgs))
     rep.notes.append("no seam: emcee_smc accepts no generator (neither constructor nor sample()); importance sampling has no generator "
@@ -257,5 +314,8 @@ def run(tier, seed, workers):
 
 def replay(case):
     r = Report()
+    if case.get("reused_arguments"):
+        r.merge(run_reused_arguments(case["cfg"]))
+        return r
     r.merge(run_config(case["cfg"]))
     return r
